@@ -344,6 +344,9 @@ func ruleV6(c *Ctx, prefix string) {
 			if nn == -1 {
 				nn = chainResultNonNil(c, h.fn, h.di, e.St)
 			}
+			if nn == -1 {
+				nn = chainResultNilState(c, ex, h.fn, h.di, e.St)
+			}
 		}
 		if and3(p, ie, ty, ck, nn) == 0 {
 			continue
@@ -395,17 +398,54 @@ func ruleRecvWhole(c *Ctx, rule string, recv string) {
 		}
 		n++
 		key := fmt.Sprintf("%s ReadFrom#%d", shortFn(fn), n)
-		sl, ok := buf.(*ssa.Slice)
-		if !ok || sl.High == nil {
-			c.R.unk(rule, key, c.P.InstrPos(in), shortFn(fn), "the receive buffer is not resliced to a constant length before the read: its size cannot be determined")
+		// the buffer, possibly obtained through a helper: every origin is a reslice to a constant length
+		v := int64(-1)
+		undecided := ""
+		var walk func(x ssa.Value, d int)
+		seen := map[ssa.Value]bool{}
+		walk = func(x ssa.Value, d int) {
+			if seen[x] || d > 8 {
+				return
+			}
+			seen[x] = true
+			switch y := x.(type) {
+			case *ssa.Slice:
+				k, ok := y.High.(*ssa.Const)
+				if y.High == nil || !ok || k.Value == nil {
+					undecided = "the receive buffer is not resliced to a constant length before the read: its size cannot be determined"
+					return
+				}
+				n, _ := constant.Int64Val(k.Value)
+				if v < 0 || n < v {
+					v = n
+				}
+			case *ssa.Phi:
+				for _, e := range y.Edges {
+					walk(e, d+1)
+				}
+			case *ssa.Call:
+				g := y.Call.StaticCallee()
+				if g == nil || !FirstParty(g) || len(g.Blocks) == 0 || g.Signature.Results().Len() != 1 {
+					undecided = "the receive buffer comes from " + calleeName(&y.Call) + ": its size cannot be determined"
+					return
+				}
+				for _, b := range g.Blocks {
+					if ret, ok := b.Instrs[len(b.Instrs)-1].(*ssa.Return); ok {
+						walk(ret.Results[0], d+1)
+					}
+				}
+			default:
+				undecided = "the receive buffer is not resliced to a constant length before the read: its size cannot be determined"
+			}
+		}
+		walk(buf, 0)
+		if undecided != "" || v < 0 {
+			if undecided == "" {
+				undecided = "the receive buffer's size cannot be determined"
+			}
+			c.R.unk(rule, key, c.P.InstrPos(in), shortFn(fn), undecided)
 			return
 		}
-		k, ok := sl.High.(*ssa.Const)
-		if !ok || k.Value == nil {
-			c.R.unk(rule, key, c.P.InstrPos(in), shortFn(fn), "the receive buffer length is not a constant")
-			return
-		}
-		v, _ := constant.Int64Val(k.Value)
 		if v < 65507 {
 			c.R.bad(rule, key, c.P.InstrPos(in), shortFn(fn), fmt.Sprintf("datagrams are read into %d bytes, less than the largest UDP payload (65507): a longer request is silently cut and its prefix is parsed as the request", v))
 			return
